@@ -6,9 +6,12 @@ import (
 	"context"
 	"errors"
 	"fmt"
+	"reflect"
 
 	"github.com/google/go-containerregistry/pkg/name"
 	ggcrv1 "github.com/google/go-containerregistry/pkg/v1"
+	"k8s.io/apimachinery/pkg/apis/meta/v1/unstructured"
+	"k8s.io/apimachinery/pkg/runtime"
 	"k8s.io/apimachinery/pkg/runtime/schema"
 	"k8s.io/apimachinery/pkg/types"
 	"sigs.k8s.io/controller-runtime/pkg/client"
@@ -156,6 +159,33 @@ func (e *env) rebuild() {
 	)
 }
 
+// onlyTimestamps reports whether two versions of an object differ in nothing but condition
+// lastTransitionTime values (and server bookkeeping). The reconciler stamps conditions with the
+// wall clock; such writes must not influence how many reconciles the harness runs.
+func onlyTimestamps(before, after map[string]any) bool {
+	if before == nil || after == nil {
+		return false
+	}
+	return reflect.DeepEqual(stripTimes(before), stripTimes(after))
+}
+
+func stripTimes(o map[string]any) map[string]any {
+	cp := runtime.DeepCopyJSON(o)
+	if md, ok := cp["metadata"].(map[string]any); ok {
+		delete(md, "resourceVersion")
+		delete(md, "managedFields")
+	}
+	if conds, ok, _ := unstructured.NestedSlice(cp, "status", "conditions"); ok {
+		for _, c := range conds {
+			if m, ok := c.(map[string]any); ok {
+				delete(m, "lastTransitionTime")
+			}
+		}
+		_ = unstructured.SetNestedSlice(cp, conds, "status", "conditions")
+	}
+	return cp
+}
+
 type recResult struct {
 	res     reconcile.Result
 	err     error
@@ -180,7 +210,7 @@ func (e *env) reconcile() recResult {
 	}
 	r.calls = e.c.Calls()
 	for _, ev := range e.w.Log(from) {
-		if ev.Actor == actorPkgmgr && ev.Changed {
+		if ev.Actor == actorPkgmgr && ev.Changed && !onlyTimestamps(ev.Before, ev.After) {
 			r.changed++
 		}
 	}
